@@ -187,6 +187,18 @@ def build_harness(name, variant='verif', extra=(), libs=('-lpthread',), srcs=Non
         else:
             cmd += ['-o', exe + '.tmp', os.path.join(bdir, 'librandomx.a')] + list(libs)
         rc, out = sh(cmd, timeout=900, check=False)
+        # a harness reaches into library internals by name; when the tree renamed a member the compiler names the replacement
+        # ("has no member named 'X'; did you mean 'Y'?"): retry with X defined as Y (affects the harness only - the tree no longer has X)
+        tries = 0
+        while rc != 0 and tries < 3:
+            ren = dict(re.findall(r"has no member named ['\u2018](\w+)['\u2019]; did you mean ['\u2018](\w+)['\u2019]", out))
+            ren.update(dict(re.findall(r"['\u2018](\w+)['\u2019] was not declared in this scope; did you mean ['\u2018](\w+)['\u2019]", out)))
+            if not ren:
+                break
+            log('  harness %s: following renamed internals %s' % (name, ren))
+            cmd = cmd[:2] + ['-D%s=%s' % kv for kv in ren.items()] + cmd[2:]
+            rc, out = sh(cmd, timeout=900, check=False)
+            tries += 1
         if rc != 0:
             raise Infra('harness %s (%s) failed to build:\n%s' % (name, variant, out[-4000:]))
         os.rename(exe + '.tmp', exe)
